@@ -153,7 +153,7 @@ func (e *Explorer) check(extra *Term) (Result, *Model) {
 		if !e.Deadline.IsZero() && time.Now().After(e.Deadline) {
 			break
 		}
-		fb, err := NewSolver(e.tt, kind, e.FallbackMs)
+		fb, err := newSolver(e.tt, kind, e.FallbackMs, true)
 		if err != nil {
 			continue
 		}
